@@ -66,34 +66,92 @@ def ensure_hashseed() -> None:
 
 
 _celpy_loaded = False
+_CODES: Dict[str, Any] = {}
+_CELPY_MODULES = ["celpy", "celpy.celtypes", "celpy.celparser", "celpy.evaluation", "celpy.adapter",
+                  "celpy.c7nlib", "celpy.__main__"]
+_RECURSION_DEFAULT = sys.getrecursionlimit()
+FRESH_COUNT = 0
+
+
+class _CachedLoader:
+    def __init__(self, code: Any) -> None:
+        self.code = code
+
+    def create_module(self, spec: Any) -> Any:
+        return None
+
+    def exec_module(self, module: Any) -> None:
+        exec(self.code, module.__dict__)
+
+
+class _CelpyFinder:
+    """Serves celpy modules from code objects compiled once per process from SRC, so that a fresh
+    set of module objects costs milliseconds."""
+
+    @staticmethod
+    def find_spec(name: str, path: Any = None, target: Any = None) -> Any:
+        ent = _CODES.get(name)
+        if ent is None:
+            return None
+        import importlib.util
+
+        code, origin, locs = ent
+        return importlib.util.spec_from_file_location(
+            name, origin, loader=_CachedLoader(code), submodule_search_locations=locs)
 
 
 def load_celpy() -> None:
-    """Import celpy from SRC (the working tree), silence logging.  The process that has called this
-    and nothing else is the *pristine template*: celpy imported, no Environment ever created."""
+    """Import celpy from SRC (the working tree) once, remember the compiled module code, silence
+    logging.  After this, fresh_celpy() yields the *pristine template state*: celpy imported, no
+    Environment ever created."""
     global _celpy_loaded
     if _celpy_loaded:
         return
     if SRC in sys.path:
         sys.path.remove(SRC)
     sys.path.insert(0, SRC)
+    import importlib
     import logging
 
-    import celpy  # noqa
-    import celpy.__main__  # noqa
-    import celpy.adapter  # noqa
-    import celpy.c7nlib  # noqa
-    import celpy.celparser  # noqa
-    import celpy.evaluation  # noqa
+    for n in _CELPY_MODULES:
+        importlib.import_module(n)
+    import celpy
 
     got = os.path.realpath(os.path.dirname(celpy.__file__))
     want = os.path.realpath(os.path.join(SRC, "celpy"))
     if got != want:
         raise HarnessError(f"celpy imported from {got}, expected {want}")
+    for n in [m for m in sys.modules if m == "celpy" or m.startswith("celpy.")]:
+        m = sys.modules[n]
+        spec = m.__spec__
+        _CODES[n] = (spec.loader.get_code(n), spec.origin, spec.submodule_search_locations)
+    sys.meta_path.insert(0, _CelpyFinder)
     # celpy logs through logger.error() inside Transpiler.evaluate; a logging handler lock held
     # across a yield point would be a lock the scheduler does not model.
     logging.disable(logging.CRITICAL)
     _celpy_loaded = True
+
+
+def fresh_celpy() -> Any:
+    """Reload isolation: throw away every celpy module object and execute the module code again.
+    All state held in celpy modules, classes, functions, closures and caches is gone; what celpy
+    pushes into the interpreter itself is reset explicitly (recursion limit).  Third-party
+    libraries (lark, re2, pendulum) keep their (pure) caches.
+
+    This replaces fork-per-run isolation: in this sandbox a forked child that builds the Lark
+    parser takes ~3000 copy-on-write page faults, which cost ~10x more under 16-way parallelism
+    (measured: 10 references 1.5 s alone, 18 s with 16 processes), so forking does not scale."""
+    global FRESH_COUNT
+    load_celpy()
+    import importlib
+
+    for n in [m for m in sys.modules if m == "celpy" or m.startswith("celpy.")]:
+        del sys.modules[n]
+    for n in _CELPY_MODULES:
+        importlib.import_module(n)
+    sys.setrecursionlimit(_RECURSION_DEFAULT)
+    FRESH_COUNT += 1
+    return sys.modules["celpy"]
 
 
 class HarnessError(Exception):
